@@ -9,7 +9,7 @@ import subprocess
 from .. import core, judge, printer as P, progen as G, reflex, sast as A
 
 PROP = "C03"
-ALPHABET = list("{}[]():,/.=><%*-+&|!$\"\\#;\n _09ax'~") + ["é", "\t", "if ", "fn ", "in ", "x..", "\\x", "${", "\r"]
+ALPHABET = list("{}[]():,/.=><%*-+&|!$\"\\#;\n _09ax'~") + ["é", "\t", "if ", "fn ", "in ", "x..", "\\x", "${", "\r", "٣", "²"]
 
 HDR1 = re.compile(r"^t\.sd:(\d+):(\d+): (.+)\n$", re.S)
 
@@ -30,7 +30,7 @@ def mutate_text(rng, text):
         a, b = min(i, j), max(i, j)
         return text[:a] + text[b:]
     if k == 4:
-        return text[:i] + rng.choice(["é", "✓", "😀", "\u00a0", "\u2028", "\x0b", "\x00"]) + text[i:]
+        return text[:i] + rng.choice(["é", "✓", "😀", "\u00a0", "\u2028", "\x0b", "\x00", "٣", "²", "½", "０", "Ⅷ"]) + text[i:]
     if k == 5:
         j = rng.randrange(len(text))
         a, b = min(i, j), max(i, j)
@@ -100,7 +100,7 @@ def gen_inputs(arg):
             k = rng.randrange(1, 7)
             texts.append("x := " + "".join(rng.choice(parts) for _ in range(k)) + rng.choice(["", "\n", '"\n', '"']))
     elif family == "unicode":
-        pool = [chr(c) for c in list(range(0, 128)) + [0xa0, 0xe9, 0x2028, 0x2713, 0x1f600, 0xfeff, 0x301]]
+        pool = [chr(c) for c in list(range(0, 128)) + [0xa0, 0xe9, 0x2028, 0x2713, 0x1f600, 0xfeff, 0x301, 0x663, 0xb2, 0xbd, 0xff10, 0x2167, 0x1d7d9]]
         for _ in range(count):
             texts.append("".join(rng.choice(pool) for _ in range(rng.randrange(0, 40))))
     tok_lines = core._dump_shard(("tokens", texts, core.BIN_VERIF))
@@ -109,7 +109,7 @@ def gen_inputs(arg):
            "shas": set()}
     for t, tl, al in zip(texts, tok_lines, ast_lines):
         out["shas"].add(core.sha(t)[:12])
-        toks, err, _ = reflex.parse_dump(tl)
+        toks, err, ends = reflex.parse_dump(tl)
         if toks is None:
             out["bad"].append(("lexer-" + err[0], "lexer %s on %r: %s" % (err[0], t[:80], err[1][:200]), t))
             continue
@@ -119,6 +119,11 @@ def gen_inputs(arg):
         if al.startswith("panic|"):
             out["bad"].append(("parser-panic", "parser panics on %r: %s" % (t[:80], bytes.fromhex(al[6:]).decode("utf-8", "replace")[:200]), t))
             continue
+        if not err:
+            dropped = reflex.dropped_input(t, toks, ends)
+            if dropped:
+                out["bad"].append(("dropped-input", "the lexer silently skipped %r at byte %d of %r (only whitespace, comments and statement terminators may be skipped)" % (dropped[0], dropped[1], t[:80]), t))
+                continue
         rt, rerr, unspec = reflex.lex(t)
         if unspec:
             out["unspec"] += 1
